@@ -111,6 +111,43 @@ fn stmts(name: &str) -> Vec<(&'static str, [String; 3])> {
     v
 }
 
+
+// ---- #[derive(Iden)]: names fixed at compile time.  The macro overrides Iden::prepare with a FAST PATH (name written verbatim between the
+// quotes) when every name of the type passes its plain-name test; one enum / unit struct per hostile character so that a test that wrongly
+// accepts that character sends the whole type down the fast path
+mod derived {
+    use sea_query::Iden;
+    #[derive(Iden)] pub enum Plain { Table, Id, #[iden = "_ok9"] Under }
+    #[derive(Iden)] pub enum DQ { Table, #[iden = "a\"b"] A, #[iden = "\""] B }
+    #[derive(Iden)] pub enum BT { Table, #[iden = "a`b"] A, #[iden = "`"] B }
+    #[derive(Iden)] pub enum SP { Table, #[iden = "a b;"] A, #[iden = "9'x"] B }
+    #[derive(Iden)] pub struct UnitPlain;
+    #[derive(Iden)] #[iden = "u\"q"] pub struct UnitDQ;
+    #[derive(Iden)] #[iden = "u`q"] pub struct UnitBT;
+}
+fn derived_check() -> Vec<(String, Witness)> {
+    use derived::*;
+    let mut out = vec![];
+    let mut one = |label: &str, want: &str, sqls: [String; 3]| {
+        for (k, sql) in sqls.iter().enumerate() {
+            let q = if k == 0 { '`' } else { '"' };
+            let ids = idents(sql, q);
+            if ids != vec![want.to_string()] {
+                let be = ["mysql", "postgres", "sqlite"][k];
+                out.push((format!("derive {label}/{be}"), Witness { property: "C04", input: want.to_string(), observed: format!("#[derive(Iden)] {label} [{be}]: {sql}  -- identifier tokens decode to {ids:?}"), expected: format!("1 identifier token decoding to {want:?}") }));
+            }
+        }
+    };
+    // expected: the name the implementor itself spells (Iden::to_string = unquoted); the renames below give it hostile characters
+    macro_rules! col { ($label:expr, $want:expr, $v:expr) => { let w: String = Iden::to_string(&$v); if !$want.is_empty() { assert_eq!(w, $want); } one($label, &w, [Query::select().column($v).to_owned().to_string(MysqlQueryBuilder), Query::select().column($v).to_owned().to_string(PostgresQueryBuilder), Query::select().column($v).to_owned().to_string(SqliteQueryBuilder)]) } }
+    col!("Plain::Table", "", Plain::Table); col!("Plain::Id", "id", Plain::Id); col!("Plain::Under", "_ok9", Plain::Under);
+    col!("DQ::Table", "", DQ::Table); col!("DQ::A", "a\"b", DQ::A); col!("DQ::B", "\"", DQ::B);
+    col!("BT::Table", "", BT::Table); col!("BT::A", "a`b", BT::A); col!("BT::B", "`", BT::B);
+    col!("SP::Table", "", SP::Table); col!("SP::A", "a b;", SP::A); col!("SP::B", "9'x", SP::B);
+    col!("UnitPlain", "", UnitPlain); col!("UnitDQ", "u\"q", UnitDQ); col!("UnitBT", "u`q", UnitBT);
+    out
+}
+
 /// every (position, backend) at which `name` does not come back as one identifier token
 pub fn check_all(name: &str) -> Vec<(String, Witness)> {
     // forms a dialect does not have (the builder drops the clause by design): not identifier positions there
@@ -140,6 +177,7 @@ pub fn check_one(name: &str) -> Option<Witness> { check_all(name).into_iter().ne
 pub fn search(_obl: &str) -> Vec<Witness> {
     std::panic::set_hook(Box::new(|_| {}));
     let mut found: Vec<Witness> = vec![];
+    if let Ok(ws) = std::panic::catch_unwind(derived_check) { for (_, w) in ws { found.push(w); } }
     let mut per_pos: std::collections::HashMap<String, usize> = Default::default();
     let alpha = ['a', '"', '`', ' ', ';', '\'', 'é', '\u{122}', '\u{160}', '\u{2022}'];
     crate::util::strings(&alpha, if crate::util::deep() { 4 } else { 3 }, |s| {
